@@ -901,6 +901,8 @@ impl NodeId {
     ///   is `self`.
     /// * Returns [`NodeError::Removed`] error if the given new sibling or
     ///   `self` is [`remove`]d.
+    /// * Returns [`NodeError::InsertAfterAncestor`] error if the given new
+    ///   sibling is an ancestor of `self`.
     ///
     /// To check if the node is removed or not, use [`Node::is_removed()`].
     ///
@@ -918,6 +920,7 @@ impl NodeId {
     ///
     /// [`Node::is_removed()`]: struct.Node.html#method.is_removed
     /// [`NodeError::InsertAfterSelf`]: enum.NodeError.html#variant.InsertAfterSelf
+    /// [`NodeError::InsertAfterAncestor`]: enum.NodeError.html#variant.InsertAfterAncestor
     /// [`NodeError::Removed`]: enum.NodeError.html#variant.Removed
     /// [`remove`]: struct.NodeId.html#method.remove
     pub fn checked_insert_after<T>(
@@ -930,6 +933,9 @@ impl NodeId {
         }
         if arena[self].is_removed() || arena[new_sibling].is_removed() {
             return Err(NodeError::Removed);
+        }
+        if self.ancestors(arena).any(|ancestor| new_sibling == ancestor) {
+            return Err(NodeError::InsertAfterAncestor);
         }
         new_sibling.detach(arena);
         let (next_sibling, parent) = {
@@ -1001,6 +1007,8 @@ impl NodeId {
     ///   is `self`.
     /// * Returns [`NodeError::Removed`] error if the given new sibling or
     ///   `self` is [`remove`]d.
+    /// * Returns [`NodeError::InsertBeforeAncestor`] error if the given new
+    ///   sibling is an ancestor of `self`.
     ///
     /// To check if the node is removed or not, use [`Node::is_removed()`].
     ///
@@ -1018,6 +1026,7 @@ impl NodeId {
     ///
     /// [`Node::is_removed()`]: struct.Node.html#method.is_removed
     /// [`NodeError::InsertBeforeSelf`]: enum.NodeError.html#variant.InsertBeforeSelf
+    /// [`NodeError::InsertBeforeAncestor`]: enum.NodeError.html#variant.InsertBeforeAncestor
     /// [`NodeError::Removed`]: enum.NodeError.html#variant.Removed
     /// [`remove`]: struct.NodeId.html#method.remove
     pub fn checked_insert_before<T>(
@@ -1030,6 +1039,9 @@ impl NodeId {
         }
         if arena[self].is_removed() || arena[new_sibling].is_removed() {
             return Err(NodeError::Removed);
+        }
+        if self.ancestors(arena).any(|ancestor| new_sibling == ancestor) {
+            return Err(NodeError::InsertBeforeAncestor);
         }
         new_sibling.detach(arena);
         let (previous_sibling, parent) = {
